@@ -256,6 +256,8 @@ struct Cl {
     ka_echo: bool,
     /// PROXY header bytes held back so that they leave in ONE write with the first bytes of the session
     prefix: Vec<u8>,
+    /// after the server closed: check that it really stopped reading (stalling behaviours only: real-time cost)
+    probe_close: bool,
     secret: Option<Vec<u8>>,
 }
 fn now_ms(t0: Instant) -> u64 { (Instant::now() - t0).as_millis() as u64 }
@@ -322,7 +324,18 @@ impl Cl {
         loop { let (id, body) = self.recv_frame().await?; if id == want { return Some(body); } }
     }
     /// read until the server closes (keep-alives are answered iff ka_echo)
-    async fn drain(&mut self) { while self.recv_frame().await.is_some() {} }
+    async fn drain(&mut self) {
+        while self.recv_frame().await.is_some() {}
+        if !self.probe_close { return; }
+        // the server has closed its side.  Is it really gone?  A closed socket answers further data with a reset;
+        // a server that merely stopped writing but keeps reading (a lingering close) swallows it.
+        let mut still_reading = true;
+        for _ in 0..3 {
+            if self.s.write_all(&[0u8; 32]).await.is_err() { still_reading = false; break; }
+            std::thread::sleep(std::time::Duration::from_millis(12));
+        }
+        if still_reading { self.obs.lock().unwrap().closed = None; }
+    }
 }
 
 fn handshake_body(host: &str, next: i32) -> Vec<u8> {
@@ -426,6 +439,7 @@ async fn client(t0: Instant, port: u16, cs: ConnScript, cfg: Cfg, obs: Arc<Mutex
     let _ = s.set_nodelay(true);
     obs.lock().unwrap().connected = true;
     let mut c = Cl { s, enc: None, dec: None, buf: vec![], obs, t0, in_config: false, ka_echo: false, prefix: vec![],
+                     probe_close: matches!(cs.beh, Beh::Silent | Beh::MidFrame | Beh::StopAt(_)) && cs.id % 3 == 0,
                      secret: cfg.secret.clone().map(String::into_bytes) };
     match &cs.hdr {
         Hdr::None => {}
